@@ -5,8 +5,8 @@
 
    Pattern operators: the pattern of a word is [pattern_of w] (quoted parts backslash-escaped, as bash's
    quote_string_for_globbing does) parsed into tokens [toks a]; fragment * ? literal \x.
-   Not proved (by search and code leg only): the global form ${v//p/w}; the element-wise theorems cover the pattern operators (# ## % %% ^ ^^ , ,,) on
-   indexed arrays and positional parameters, not replacement / slices / associative arrays; see notes/C21.md. *)
+   Not proved (by search and code leg only): the global form ${v//p/w}; the element-wise theorems cover the pattern operators (# ## % %% ^ ^^ , ,,) and replacement on
+   indexed arrays and positional parameters, not slices / associative arrays / the default family; see notes/C21.md. *)
 From Verif Require Import Base.Str Expand.Param Expand.ParamSpec Proofs.ParamMatchProofs Proofs.ParamProofs.
 Open Scope N_scope.
 
@@ -179,6 +179,23 @@ Theorem C21_split_of_joined_elements : forall ifs xs,
   split_fields ifs (join SP xs) [] = flat_map (fun x => split_fields ifs x []) xs.
 Proof. exact split_join_space. Qed.
 Print Assumptions C21_split_of_joined_elements.
+
+(* the same for replacement: "${a[@]/p/w}" "${a[*]//p/w}" "$@" with /# /% ... = the scalar replacement on every element *)
+Theorem C21_elementwise_quoted_replace : forall upper lower quote e name i all orig w l star f,
+  list_of_subject e name i = Some (l, star) ->
+  repl_op all orig w = Some f ->
+  expand_word upper lower quote e (mkP name i (PRepl all orig w)) true =
+  OOk (if star then [ifs_join e (map f l)] else map f l, None).
+Proof. exact elementwise_quoted_repl. Qed.
+Print Assumptions C21_elementwise_quoted_replace.
+
+Theorem C21_elementwise_scalar_replace : forall upper lower quote e name all orig w x f,
+  is_params_name name = false ->
+  env_get e name = VStr x ->
+  repl_op all orig w = Some f ->
+  param_exp upper lower quote e (mkP name INone (PRepl all orig w)) = OOk (f x, None).
+Proof. exact elementwise_scalar_repl. Qed.
+Print Assumptions C21_elementwise_scalar_replace.
 
 Example C21_remove_nonvacuous :
   (* v = b NL a b ; ${v%*b} = b NL a (shortest suffix across the newline, repaired) ; ${v%%"*"b} unchanged *)
